@@ -99,6 +99,17 @@ class _Handler(http.server.BaseHTTPRequestHandler):
                 if a >= len(data):
                     return self._send(416, b"", [("Content-Range", f"bytes */{len(data)}")])
                 part = data[a:b + 1]
+                if len(part) >= 256 * 1024:
+                    # the first of a burst of large range requests is the slowest to be
+                    # answered (replies to concurrent requests arrive out of order, as
+                    # they do on a real network); a lone request just takes a little longer
+                    import time
+                    now = time.monotonic()
+                    leader = now - getattr(srv, "last_big_range", 0.0) > 0.1
+                    srv.last_big_range = now
+                    if leader:
+                        srv.big_range_leaders = getattr(srv, "big_range_leaders", 0) + 1
+                        time.sleep(0.15)
                 if fault == "drop":
                     return self._drop(206, part, [(
                         "Content-Range", f"bytes {a}-{a + len(part) - 1}/{len(data)}")])
